@@ -38,6 +38,7 @@ _CANON_CALL = {
     "numpy.log": "log", "math.log": "log", "libc.math.log": "log",
     "numpy.round": "round", "round": "round", "numpy.around": "round", "numpy.rint": "rint",
 }
+_ELEMENTWISE = {"cos", "sin", "sqrt", "abs", "radians", "degrees", "exp", "log", "floor", "ceil", "arccos"}
 _CANON_CONST = {"numpy.pi": "pi", "math.pi": "pi", "numpy.inf": "inf", "math.inf": "inf",
                 "libc.math.M_PI": "pi", "M_PI": "pi"}
 
@@ -376,7 +377,7 @@ class Ev:
                 elif items is not None and len(items) == len(t.elts) and not star:
                     self.assign(e, items[i], st)
                 else:
-                    self.assign(e, P.atom(("sub", v, (P.const(i),))), st)
+                    self.assign(e, self.subscript(v, (P.const(i),)), st)
         else:
             tgt = self.ev(t, store=True)
             self.emit("store", st, target=tgt, value=v)
@@ -806,7 +807,20 @@ class Ev:
     def e_Subscript(self, n, store=False):
         base = self.ev(n.value)
         idx = self.index(n.slice)
+        return self.subscript(base, idx, store)
+
+    def subscript(self, base: P, idx: tuple, store=False) -> P:
         if not store:
+            # elementwise functions commute with indexing: cos(x)[k] == cos(x[k])
+            ba = base.as_atom()
+            if ba and ba[0] == "call" and len(ba[2]) == 1 and len(ba) < 4 and len(idx) == 1 and idx[0].const_value() is not None:
+                c = ba[1].as_atom()
+                if c and c[0] == "name" and c[1] in _ELEMENTWISE:
+                    inner_items = seq_items(ba[2][0])
+                    k = idx[0].const_value()
+                    if inner_items is not None and k.denominator == 1 and -len(inner_items) <= k < len(inner_items):
+                        return P.atom(("call", ba[1], (inner_items[int(k)],)))
+                    return P.atom(("call", ba[1], (P.atom(("sub", ba[2][0], idx)),)))
             items = seq_items(base)
             if items is not None and len(idx) == 1:
                 c = idx[0].const_value() if isinstance(idx[0], P) else None
